@@ -45,7 +45,7 @@ enum kind {
     K_RACQ, K_RPRE, K_RREL, K_PACQ, K_PPRE, K_PREL,
     K_BPUT, K_BGET, K_OQPUT, K_OQGET, K_PQPUT, K_PQGET, K_PQCANCEL, K_PQREPRIO,
     K_CWAIT, K_CSIG, K_SETX, K_CCANCEL, K_CREMOVE, K_CSUB, K_CUNSUB, K_CSUBB, K_CUNSUBB, K_TCLEARO, K_TADDO, K_CREMOVEB, K_CCANCELB, K_CWAITB,
-    K_EVSCHED, K_EVCANCEL, K_RECON, K_RECOFF, K_RESTOP, K_START, K_NOP, NKINDS
+    K_EVSCHED, K_EVCANCEL, K_RECON, K_RECOFF, K_RESTOP, K_REREC, K_START, K_NOP, NKINDS
 };
 
 struct opdef {
